@@ -4,13 +4,24 @@
    log, insert the operation documents, update the datatype document).  [handle_pack_f (Some fp)] is
    the handler with the command at point fp failing; a server crash after that command leaves the
    same store (no later command runs) and differs only in that the client gets no response at all.
-   Proved: a fault at ANY point, from any consistent store, is contained.  The recovery half (a
-   later retry of any client yields the fault-free log) is stated as C08_statement_list — the runs of
-   Net.v with storage faults — and is exercised on every run (faults at every command position,
-   retries, comparison of all replicas and the server's rebuild), not yet proved. *)
+   Proved:
+   (1) containment — a fault at ANY point, from any consistent store, changes nothing acknowledged;
+   (2) recovery at the store (Proofs/Recovery.v) — [clean db] is the acknowledged part of a store (the
+       operation documents at or below the recorded end of their log); from ANY store whose acknowledged part is
+       consistent, however littered by earlier faults, every later request is answered exactly as by the acknowledged
+       store and leaves the same acknowledged store; an error answer (refusal or fault) leaves it unchanged;
+   (3) recovery at system level (Proofs/ProtocolFault.v) — clients issuing operations, syncing, joining late, answers
+       lost, late and repeated (the system of C05/C07), and a storage command failing during any exchange, any number
+       of times: every such history is, through [clean], a fault-free history of a sub-sequence of its events; in
+       every reachable state the acknowledged log is gapless and holds every client's operations exactly once, every
+       client has executed exactly the foreign operations of the prefix it has seen, and a client that has since synced
+       to the end has executed the whole log: retries converge to the fault-free outcome.
+   The statement over Net.v with its creation races (C08_statement_list) stays a definition; the harness exercises it
+   on every run (faults at every command position, retries, comparison of all replicas and the server's rebuild). *)
 From Coq Require Import List NArith.
 From Orda.Model Require Import Base Time Ops List Datatype CheckCrdt Server Wire Net.
-From Orda.Proofs Require Import ServerFacts FaultFacts.
+From Orda.Model Require Import Wire.
+From Orda.Proofs Require Import ServerFacts FaultFacts ClientOrder Protocol ProtocolLate ProtocolJoin Recovery ProtocolFault.
 
 (* whichever command fails while a pack is served: every datatype document — end of log, every
    client's checkpoint — is exactly as before, every stored operation is still stored, all that may
@@ -28,7 +39,100 @@ Theorem C08_premise_reachable : forall rs : list request, LogInv (fold_left serv
 Proof. exact log_invariant. Qed.
 Print Assumptions C08_premise_reachable.
 
-(* the full statement: with storage faults anywhere in the history, settled replicas agree *)
+(* (2) recovery at the store.  [WInv db]: the acknowledged part of db is a consistent store (and sequence numbers are
+   positive); it holds of every consistent store and survives every request, with or without a fault *)
+Theorem C08_consistent_stores_qualify : forall db, LogInv db -> WInv db /\ clean db = db.
+Proof. intros db H. split; [apply loginv_winv|apply loginv_clean]; exact H. Qed.
+Print Assumptions C08_consistent_stores_qualify.
+
+(* a request served, with the command at f failing or with no fault (f = None), from a littered store: the store keeps
+   qualifying, its tables are untouched, and either the fault bit — error answer, nothing published, acknowledged part
+   unchanged — or answer, publishes and acknowledged part are exactly those of the acknowledged store served without a fault *)
+Theorem C08_fault_or_as_if_clean : forall f db colname col cuid req,
+  WInv db ->
+  let '(db', resp, pubs) := handle_pack_f f db colname col cuid req in
+  WInv db' /\ same_tables db db' /\
+  ((f <> None /\ p_err resp <> None /\ pubs = [] /\ clean db' = clean db) \/
+   handle_pack (clean db) colname col cuid req = (clean db', resp, pubs)).
+Proof. exact pack_erased. Qed.
+Print Assumptions C08_fault_or_as_if_clean.
+
+(* the retry: no fault this time, whatever was left behind before *)
+Theorem C08_retry_as_if_no_failure : forall db colname col cuid req,
+  WInv db ->
+  let '(db', resp, pubs) := handle_pack db colname col cuid req in
+  WInv db' /\ handle_pack (clean db) colname col cuid req = (clean db', resp, pubs).
+Proof. exact retry_as_if_no_failure. Qed.
+Print Assumptions C08_retry_as_if_no_failure.
+
+(* nothing acknowledged is lost and nothing unacknowledged appears: any error answer leaves the acknowledged store as it was *)
+Theorem C08_error_answer_keeps_acknowledged : forall f db colname col cuid req,
+  WInv db ->
+  let '(db', resp, pubs) := handle_pack_f f db colname col cuid req in
+  WInv db' /\ (p_err resp <> None -> clean db' = clean db /\ pubs = []).
+Proof. exact error_keeps_acknowledged. Qed.
+Print Assumptions C08_error_answer_keeps_acknowledged.
+
+(* (3) the system: events of C05's system with late subscribers, each paired with the command that fails during it (or None) *)
+Theorem C08_faulty_history_is_a_fault_free_history : forall colname col D key ty evs st,
+  WInv (dbof st) ->
+  exists evs', subseq evs' (map snd evs) /\
+               cl (xrun colname col D key ty st evs) = jrun colname col D key ty (cl st) evs' /\
+               (Forall (fun fe => fst fe = None) evs -> evs' = map snd evs).
+Proof. exact faulty_run_is_a_fault_free_run. Qed.
+Print Assumptions C08_faulty_history_is_a_fault_free_history.
+
+Theorem C08_faults_exactly_once : forall colname col D key ty st0 evs,
+  XInv col D key ty st0 ->
+  let st := xrun colname col D key ty st0 evs in let db := clean (dbof st) in
+  WInv (dbof st) /\ LogInv db /\
+  (forall c, In c (ps_cl (l_base st)) ->
+     pc_exec c = foreign (pc_cuid c) (firstn (N.to_nat (pc_s c)) (logops D db))) /\
+  (forall d u, In d (s_dts db) -> seqs_of (s_ops db) (dd_duid d) u = nseq 1 (N.to_nat (ack d u))).
+Proof. exact faults_exactly_once. Qed.
+Print Assumptions C08_faults_exactly_once.
+
+Theorem C08_retries_converge : forall colname col D key ty st0 evs,
+  XInv col D key ty st0 ->
+  let st := xrun colname col D key ty st0 evs in let db := clean (dbof st) in
+  forall d0, In d0 (s_dts db) -> dd_duid d0 = D ->
+  forall c, In c (ps_cl (l_base st)) -> pc_s c = dd_end d0 ->
+    pc_exec c = foreign (pc_cuid c) (logops D db).
+Proof. exact faults_quiescent. Qed.
+Print Assumptions C08_retries_converge.
+
+(* non-vacuity of (3): u created the datatype; it issues an operation and its push fails at the third write (the
+   operation document stays beyond the end of the log); w subscribes — its first attempt fails at the pull —, then
+   subscribes for good and receives only the acknowledged operation; u retries: accepted; w issues an operation, its
+   push fails at the insert, the retry succeeds; both sync: each has executed the other's operations, once; the
+   acknowledged log is 1..3 *)
+Example C08_system_example :
+  let c := [99]%N in let u := [117]%N in let w := [119]%N in let k := [107]%N in let col := [65]%N in
+  let o1 := OSnap (mkOpid 0 1 u 1) in let o2 := OInc (mkOpid 0 2 u 2) 5 in let q1 := OInc (mkOpid 0 3 w 1) 1 in
+  let rs := [RCollection col; RClient col u; RClient col w;
+             RPushPull col u [mkPpp k c bit_create (mkCp 0 1) 0 [o1] None]] in
+  let st0 := mkLs (mkPs (fold_left serve rs sdb_init) [mkPc u 1 1 [] []]) [] in
+  let sync i := JBase (LBase (PSync i false)) in
+  let evs := [(None, JBase (LBase (PLocal 0 o2))); (Some FailUpdate, sync 0%nat);
+              (Some FailPull, JJoin w [100]%N); (None, JJoin w [100]%N);
+              (None, sync 0%nat); (None, JBase (LBase (PLocal 1 q1))); (Some FailInsert, sync 1%nat);
+              (None, sync 1%nat); (None, sync 0%nat)] in
+  let st := xrun col 1 c k 0 st0 evs in
+  XInv 1 c k 0 st0 /\
+  map (fun x => (pc_cuid x, pc_s x, pc_cc x, pc_buf x, pc_exec x)) (ps_cl (l_base st)) = [(u, 3, 2, [], [q1]); (w, 3, 1, [], [o1; o2])]%N /\
+  map od_sseq (s_ops (clean (dbof st))) = [1; 2; 3]%N.
+Proof.
+  cbv zeta. split; [|vm_compute; split; reflexivity].
+  apply XInv_of_JInv. apply JInv_of_LInv; [| |reflexivity].
+  - apply LInv_of_PInv; [|intros d0 Hin Hd; vm_compute in Hin; destruct Hin as [<-|[]]; vm_compute; reflexivity].
+    split; [apply log_invariant|]. split; [apply client_order; repeat constructor|]. split; [repeat constructor; cbn; intuition discriminate|].
+    eexists. split; [vm_compute; left; reflexivity|]. split; [reflexivity|]. split; [reflexivity|].
+    repeat constructor; vm_compute; try reflexivity; try discriminate.
+  - intros d Hin Hd. vm_compute in Hin. destruct Hin as [<-|[]]. split; reflexivity.
+Qed.
+Print Assumptions C08_system_example.
+
+(* the statement over the client-server system of Net.v (not proved): with storage faults anywhere in the history, settled replicas agree *)
 Definition C08_statement_list : Prop :=
   forall (es : list (nev lcall)) x y,
     let s := nrun lstate lcall (list val) lstate l_init l_validate l_local' l_exec_remote id_ id_ 2 es in
